@@ -24,6 +24,7 @@ META = {
 }
 META["explanation"] += ' Also COPY (copy / pickle hooks of every storage keep its state), descriptors that keep a capacity on themselves, DEP-C04 ORIG; OWNER: no code outside a storage assigns its state / configuration attributes.'
 META["explanation"] += ' Round 5: OWNER (above), an arrival dropped before the capacity was tested, DEP-C06 NOMUT, DEP-C14 INPUT, DEP-C15 DEFAULTS storage. HAZARD: constructs that do not mean what they look like, met in the analysed code (defaults evaluated once, class-level containers changed through self, dict.fromkeys with a shared mutable value, late-binding lambdas, truth value of objects that define __len__) are reported by every check.'
+META["explanation"] += ' Round 6: no explainer changes in place a container that get_data() handed out (OWNER get_data); deque rotate(-1) + overwrite is the eviction it performs.'
 MIN_INSTANCES = {"PARALLEL": 5, "COUNT": 5, "OBS": 5, "COPY": 5}
 
 FIFO_ROOT = "IntervalStorage"
